@@ -4,6 +4,7 @@ SETUP_VARIANTS = ["plain", "asan", "fips", "tsan", "fips-tsan"]
 
 ENGINES = {
     "hashmb": dict(src=["harness/hashmb.c", "harness/hashbig.c", "harness/hashalgs.c"]),
+    "aesdiff": dict(src=["harness/aesdiff.c", "harness/aesfam.c"]),
 }
 
 HASH_ALGS = ["sha1", "sha256", "sha512", "md5", "sm3"]
@@ -39,6 +40,21 @@ def hash_tasks(prop, quick_n, thorough_n, inject, extra=None, variants=("plain",
     return gen
 
 
+def aes_tasks(prop, what, fams, quick_n, thorough_n, parts_q=2, parts_t=4):
+    def gen(tier):
+        n = quick_n if tier == "quick" else thorough_n
+        tasks = []
+        for fam in fams:
+            for (f, c) in split(n, parts_q if tier == "quick" else parts_t):
+                tasks.append(dict(engine="aesdiff", variant="plain",
+                                  args=["--prop", prop, "--what", what, "--fam", fam, "--from", f, "--count", c]))
+        return tasks
+    return gen
+
+
+GCM_FAMS = ["sse", "avx_gen2", "avx_gen4", "vaes_avx512"]
+AES_TRUST = TRUST + ["OpenSSL 3.0 EVP as second oracle for inputs longer than 4-8 KiB; ref, OpenSSL and published vectors are cross-checked at start-up"]
+
 HIST_RULE = ("each case is a seeded random history (pool of 1..3L contexts, 10-80 submit/flush calls, boundary-biased segment lengths, "
              "zero-length segments, context reuse, mid-stream restarts, injected invalid submits) run on every (algorithm, family) pair "
              "through three routes (family symbols, isal_ API and legacy API forced onto the family by the virtual-CPU hook); "
@@ -63,5 +79,43 @@ CHECKS = {
         rule=HIST_RULE + "; evaluations = injected invalid submits, each compared byte-for-byte (manager, all contexts, buffers) against a snapshot taken just before the call",
         assumptions=TRUST,
         tasks=hash_tasks("C11", 1500, 60000, 22, variants=("plain", "asan")),
+    ),
+    "C02": dict(
+        level="exploration", evaluations="gcm_calls", must_observe=["gcm_calls", "cases_sse", "cases_avx_gen2", "cases_avx_gen4", "cases_vaes_avx512"],
+        rule=("case c<=1100 uses plaintext length c exactly (every tail of the 8/16/48-block loops), later cases draw lengths around loop edges and up to 64 KiB "
+              "(1 MiB in thorough); AAD length (c/5) mod 81 on every fifth case else boundary-biased up to 2 KiB; tag 8/12/16; random data/AAD/IV/tag alignment 0..63, "
+              "key-data at 16-byte residues; in-place or out-of-place; _nt variants with 64-byte aligned disjoint buffers; each case runs enc and dec for both key sizes "
+              "on the family symbols and on the isal_/legacy API forced onto the family; distinct_nontrivial = distinct (family, key size, direction, nt, in-place, route, "
+              "length class, AAD length class, tag length)"),
+        assumptions=AES_TRUST,
+        tasks=aes_tasks("C02", "gcm", GCM_FAMS, 1500, 60000),
+    ),
+    "C07": dict(
+        level="exploration", evaluations="gcm_update_calls", must_observe=["gcm_calls", "gcm_update_calls", "cases_sse", "cases_avx_gen2", "cases_avx_gen4", "cases_vaes_avx512"],
+        rule=("as C02 but the data is fed through init/update*/finalize; partitions are generated in five styles (1-3 byte pieces with empty updates, "
+              "pieces chosen relative to the carried residue r: <16-r, =16-r, >16-r, >>16-r, uniform, multiples of 16 +/- tail, mixed) and differ between the "
+              "encrypt and decrypt pass; _nt updates use multiples of 64 except the last; outputs and tag are compared with the SP 800-38D reference "
+              "(which the one-shot call is compared with in C02); distinct_nontrivial counts (family, carried residue, piece class, direction, key size, nt) cells "
+              "plus the C02 case classes"),
+        assumptions=AES_TRUST,
+        tasks=aes_tasks("C07", "gcmstream", GCM_FAMS, 1500, 60000),
+    ),
+    "C03": dict(
+        level="exploration", evaluations="xts_calls", must_observe=["xts_calls", "xts_short_calls", "cases_sse", "cases_avx", "cases_vaes"],
+        rule=("case c<=1100 uses data-unit length c exactly (0..15: both buffers point into PROT_NONE pages for the family/legacy entry points, isal_ must return CIPH_LEN "
+              "and modify nothing; 16..1100: every tail with and without stealing), later cases around the 8/16-block loop edges, up to 64 KiB (2^24 and 2^24-1 in thorough); "
+              "enc and dec, raw and pre-expanded keys (schedules from the FIPS-197 reference), both key sizes, in-place or disjoint, random alignment of data, keys and tweak; "
+              "distinct_nontrivial = distinct (family, key size, dir, expanded, in-place, route, length class)"),
+        assumptions=AES_TRUST,
+        tasks=aes_tasks("C03", "xts", ["sse", "avx", "vaes"], 1500, 40000),
+    ),
+    "C04": dict(
+        level="exploration", evaluations=["cbc_calls", "keyexp_calls"], must_observe=["cbc_calls", "keyexp_calls", "cases_sse", "cases_avx", "cases_avx512_g2"],
+        rule=("key expansion of random and constant-byte keys for 128/192/256 (+128_enc) on both families and both API routes, compared byte for byte with the FIPS-197 "
+              "schedule and its equivalent-inverse decryption schedule; CBC with N = c blocks for c in 1..80 then lengths around the 8/16-block loop edges up to 64 KiB "
+              "(1 MiB in thorough), enc x4/x8 and dec sse/avx/vaes_avx512, in-place or disjoint, data alignment 0..63, compared with the SP 800-38A reference; "
+              "distinct_nontrivial = distinct (family, key size, dir, in-place, route, block-count class) and (key size, key)"),
+        assumptions=AES_TRUST,
+        tasks=aes_tasks("C04", "cbc", ["sse", "avx", "avx512_g2"], 1500, 40000),
     ),
 }
